@@ -37,6 +37,10 @@ RULE = ("cases = scenario templates over a catalogue of 44 class specifications 
         "(0c) POOL: user objects (attr.Converter with takes_self/takes_field, pipe/optional results, attr.Factory, "
         "and_/or_ validator objects, eq-key/repr callables) wandering over DIFFERENT field names from class to class "
         "while the other names carry other converters; "
+        "the KIND of every shared argument container varies (metadata: dict / MappingProxyType over a kept dict / "
+        "OrderedDict / custom Mapping; validators/converters/hooks: list / tuple / prebuilt and_ / pipe object; these and "
+        "make_class attrs: dict / OrderedDict, names list / tuple; class_body dict / OrderedDict) and the user's edits of "
+        "the kept objects (new key + every old value changed, appends) sit between definitions; "
         "(5) shared counting attrs (also re-declared base fields) with @ca.validator/@ca.default between definitions; (6) fields over shared "
         "argument containers with appends between definitions; (7) random mixtures with histories up to 6 steps. "
         "non-trivial = the history contains at least one definition that succeeded; distinct = distinct JSON case")
@@ -59,7 +63,8 @@ ASSUMPTIONS = [
     "nested in attrs()/define(); `x = attrs` in make_class); state kept elsewhere is only seen by the correspondence",
     "base classes come from 12 fixed kinds (one or two attrs levels), built per universe with their own fresh decorators and "
     "shared by all classes of a history; which pool object / key / repr callable / factory style / field_transformer a "
-    "field or decorator uses is harness-only variation the model is independent of (it only sees conv / nValid / hasDefault)",
+    "field or decorator uses, and the kind of each shared container (the model only counts members), is harness-only "
+    "variation the model is independent of (it only sees conv / nValid / hasDefault / sizes)",
 ]
 EXHAUSTIVE = {"quick": False, "thorough": False}
 BUDGET_S = {"quick": 30, "thorough": 400}
@@ -144,8 +149,17 @@ def is_def(step):
     return isinstance(step, dict) and ("defDeco" in step or "defMk" in step)
 
 
+def rand_kinds(rng):
+    """harness-only: which KIND each shared argument container is (dict / MappingProxyType over a kept dict /
+    OrderedDict / custom Mapping; list / tuple / prebuilt and_ / pipe object; ...)"""
+    return {k: rng.choice(v) for k, v in W.KINDS.items()}
+
+
 def scenario(decos, steps, target, these=(), mkFields=(), mkHooks=(), mkBody=None, cas=(), valLen=2, convLen=1, hookLen=1,
-             metaSize=1, tpl="?"):
+             metaSize=1, tpl="?", kinds=None):
+    if kinds:
+        return dict(scenario(decos, steps, target, these, mkFields, mkHooks, mkBody, cas, valLen, convLen, hookLen,
+                             metaSize, tpl), kinds=kinds)
     return {"decos": list(decos), "these": list(these), "mkFields": list(mkFields), "mkHooks": list(mkHooks),
             "mkBody": mkBody or dict(NO_OWN), "cas": list(cas), "valLen": valLen, "convLen": convLen, "hookLen": hookLen,
             "metaSize": metaSize, "steps": list(steps), "target": target, "tpl": tpl}
@@ -397,7 +411,7 @@ def t_these(rng):
     ns = _names(rng, n + 1)
     steps = [defDeco(rng.randrange(k), _cat(rng.choice(CAT), ns[i], rng)) for i in range(n)]
     return scenario(decos, steps, defDeco(rng.randrange(k), _cat(rng.choice(CAT), ns[n], rng)), these=these,
-                    cas=[CA()], tpl="these")
+                    cas=[CA()], tpl="these", kinds=rand_kinds(rng))
 
 
 def _mk_step(rng, hooks_present=True):
@@ -414,7 +428,8 @@ def t_mk(rng):
     if rng.random() < 0.3:
         steps.insert(rng.randrange(len(steps) + 1), defDeco(0, _cat(rng.choice(CAT), "A", rng)))
     return scenario([_rand_deco(rng)], steps, _mk_step(rng), mkFields=copy.deepcopy(rng.choice(MK_FIELDS)),
-                    mkHooks=list(rng.choice(MK_HOOKSETS)), mkBody=dict(rng.choice(MK_BODIES)), cas=[CA()], tpl="make_class")
+                    mkHooks=list(rng.choice(MK_HOOKSETS)), mkBody=dict(rng.choice(MK_BODIES)), cas=[CA()], tpl="make_class",
+                    kinds=rand_kinds(rng))
 
 
 def t_ca(rng):
@@ -458,8 +473,15 @@ def t_lists(rng):
             steps.append(rng.choice(USER_OPS))
         else:
             steps.append(defDeco(0, cls(i)))
+    if rng.random() < 0.6:
+        # a class over the containers first, then the user edits every container (the next class is being prepared)
+        burst = rng.sample(USER_OPS, rng.randint(1, 4))
+        steps = [defDeco(0, cls(0))] + burst + steps[:2]
+    kinds = rand_kinds(rng)
+    if rng.random() < 0.5:
+        kinds["M"] = rng.choice(["proxy", "mapping", "odict"])
     return scenario(decos, steps, defDeco(0, cls(n)), valLen=rng.choice([1, 2, 3]), convLen=rng.choice([1, 2]),
-                    hookLen=rng.choice([1, 2]), metaSize=rng.choice([0, 1, 2]), cas=[CA()], tpl="lists")
+                    hookLen=rng.choice([1, 2]), metaSize=rng.choice([1, 1, 2, 0]), cas=[CA()], tpl="lists", kinds=kinds)
 
 
 def t_mix(rng):
@@ -493,7 +515,7 @@ def t_mix(rng):
     return scenario(decos, steps, a_def(n), these=copy.deepcopy(rng.choice(THESE_SETS)) if with_these else [],
                     mkFields=copy.deepcopy(rng.choice(MK_FIELDS)), mkHooks=list(rng.choice(MK_HOOKSETS)),
                     mkBody=dict(rng.choice(MK_BODIES)), cas=cas, valLen=rng.choice([1, 2]), convLen=1, hookLen=rng.choice([1, 2]),
-                    metaSize=rng.choice([0, 1]), tpl="mix")
+                    metaSize=rng.choice([0, 1]), tpl="mix", kinds=rand_kinds(rng) if rng.random() < 0.7 else None)
 
 
 TWIN_DECOS = [
@@ -699,8 +721,8 @@ def _fix_catalogue_for_case(case):
 
 def gen_cases(tier, rng):
     # 0. layout twins first (library-global state keyed by field layout needs no shared decorator or container)
-    for i in range(900 if tier == "quick" else 30000):
-        yield (t_twin, t_siblings, t_pool)[i % 3](rng)
+    for i in range(1000 if tier == "quick" else 40000):
+        yield (t_twin, t_siblings, t_pool, t_lists)[i % 4](rng)
     # 1. every (decorator, A) of the catalogue through one shared decorator object, B from the sensitive set
     if tier == "quick":
         order = [(d, a) for d in DECO_NAMES for a in CAT]
@@ -714,7 +736,7 @@ def gen_cases(tier, rng):
                 for b in CAT:
                     yield t_pair(rng, d, a, b)
     # 2. one of each other template, round robin, until the budget is used
-    n = 2200 if tier == "quick" else 400000
+    n = 2100 if tier == "quick" else 400000
     for i in range(n):
         yield TEMPLATES[i % len(TEMPLATES)](rng)
 
@@ -774,7 +796,7 @@ def _observe(case):
         "cellsAfter": wa.final_cells(),
         "mkHooksAfter": [k for k in wa.mk_dict if k in W.HOOK_KEYS],
         "casAfter": [W.ca_state(c) for c in wa.cas],
-        "sizesAfter": [len(wa.L), len(wa.Cs), len(wa.H), len(wa.M)],
+        "sizesAfter": wa.sizes(),
         "deepSame": W.normalised(wa, deep_a) == W.normalised(wb, deep_b), "earlierSame": bool(earlier), "containersSame": bool(snaps_ok),
         "cellsSame": wa.cells_same(), "foreignFree": bool(foreign_free),
     }
